@@ -150,7 +150,7 @@ def check_history_big(cfg, ops, seed, counters):
                 c = m.contents[me[2]]
                 if isinstance(ae[2], tuple):
                     if ae[2][0] != 'pattern' or ae[2][2] != c.length:
-                        vio.append({'key': 'view:%s:bytes' % ns, 'detail': '%s %r expected %d bytes of cid %s' % (p, ae[2], c.length, me[2])})
+                        vio.append({'key': 'view:%s:bytes%s' % (ns, ':multi-extent' if c.length > 0xfffff800 else ''), 'detail': '%s %r expected %d bytes of cid %s' % (p, ae[2], c.length, me[2])})
                 elif c.length > (8 << 20):
                     vio.append({'key': 'view:%s:bytes' % ns, 'detail': '%s: API reports length %r for a %d-byte file' % (p, ae[1], c.length)})
                 elif ae[2] != c.bytes():
